@@ -134,6 +134,36 @@ func verifH_C12_assign() {
 	verifAssert(verifImplies(had == 0, verifCount(&m, k, 0, true) == 0), "C12/L/assign/missing-ignored")
 }
 
+// verifH_C12_assign_typed: as verifH_C12_assign, but every entry of the arbitrary table has its OWN declared type
+// (int32 or float64, symbolic per slot): the stored value takes the type of the entry whose key matches, wherever
+// probing found it, and no other slot changes.
+func verifH_C12_assign_typed() {
+	m := intMap{}
+	m.init(intMapMin, 0)
+	total := 0
+	for i := range m.pairs {
+		d, k, v := verifInt(verifName("d", i)), verifInt(verifName("k", i)), verifInt32(verifName("v", i))
+		t := verifIteInt(verifBool(verifName("isfloat", i)), int(TypeFloat64), int(TypeInt32))
+		m.pairs[i] = intMapPair{distance: d, key: k, value: Value{t: Type(t), num: float64(v)}}
+		total += verifIteInt(d > 0, 1, 0)
+	}
+	m.total = total
+	verifAssume(verifTableInv(&m))
+	verifAssume(total <= verifCfg("c12_maxtotal", 6))
+	pre := verifCopyTable(&m)
+	k, v := verifInt("key"), verifInt32("val")
+	m.Assign(k, newUntypedInt(int(v)))
+	verifAssert(verifTableInv(&m), "C12/L/assign-typed/invariant")
+	for i := range m.pairs {
+		a, b := pre.pairs[i], m.pairs[i]
+		hit := verifAnd(a.distance > 0, a.key == k)
+		verifAssert(verifAnd(a.distance == b.distance, a.key == b.key), "C12/L/assign-typed/layout-unchanged")
+		verifAssert(int(a.value.t) == int(b.value.t), "C12/L/assign-typed/field-keeps-its-declared-type")
+		verifAssert(verifImplies(hit, b.value.num == float64(v)), "C12/L/assign-typed/stored")
+		verifAssert(verifImplies(verifNot(hit), b.value.num == a.value.num), "C12/L/assign-typed/others-untouched")
+	}
+}
+
 func verifH_C12_delete() {
 	m := verifArbTable()
 	pre := verifCopyTable(&m)
@@ -233,6 +263,7 @@ func init() {
 	verifHarnesses["verifH_C12_set"] = verifH_C12_set
 	verifHarnesses["verifH_C12_get"] = verifH_C12_get
 	verifHarnesses["verifH_C12_assign"] = verifH_C12_assign
+	verifHarnesses["verifH_C12_assign_typed"] = verifH_C12_assign_typed
 	verifHarnesses["verifH_C12_delete"] = verifH_C12_delete
 	verifHarnesses["verifH_C12_copy"] = verifH_C12_copy
 	verifHarnesses["verifH_C12_thresholds"] = verifH_C12_thresholds
